@@ -196,11 +196,9 @@ def _substitute_original_strings(original_source: str, new_source: str) -> str:
         original_modifiers &= set("brf")
         new_modifiers &= set("brf")
 
-        # If the modifiers are not the same, we use the new modifiers.
+        # With another prefix (raw or not) the same characters between the quotes are another value
         if new_modifiers != original_modifiers:
-            prefix = "".join(sorted(new_modifiers, key="frb".index))
-            most_common_original_formatting = most_common_original_formatting.lstrip("brf")
-            most_common_original_formatting = prefix + most_common_original_formatting
+            continue
 
         replacements[node] = most_common_original_formatting
 
